@@ -154,6 +154,10 @@ C11_Options(C, R) ==
     /\ (~IsErr(R) /\ C.maxsteps >= 0 => R.nstep <= C.maxsteps + 1)
     /\ (~IsErr(R) /\ R.status = "NeedLargerNMax" => C.maxsteps >= 0 \/ C.api = "low")
 
+(* ---------------------------------------------------------------- C02 (recorded Radau runs) *)
+\* the three evaluations of every Newton iteration lie at the Radau IIA nodes of one attempted step (fact of the recorder)
+C02_RadauNodes(R) == R.nodes.has => R.nodes.ok
+
 (* ---------------------------------------------------------------- C15 *)
 \* index-1 differential-algebraic problems (singular mass): Radau solves them, the algebraic constraint holds at every
 \* stored sample and the differential components agree with the reduced ordinary system (facts of the recorder)
